@@ -1180,6 +1180,78 @@ func init() {
 		}
 		return true
 	}
+	// encoding/binary on a bytes.Buffer / file: Write appends to the stream (the buffer's version
+	// changes), Read consumes from it and stores an unknown value of the pointee's type through the
+	// pointer it is given. Either may return an error. (Content-level stream model: see stubs.)
+	bumpBuf := func(v *Verifier, st *State, w Value) {
+		ref := w.T
+		if w.Sort == "Val" {
+			ref = app("valref", w.T)
+		}
+		ver := v.env.heapGet(st, "G!bufver", arr("Int", "Int"))
+		nv := v.env.ctx.freshConst("bufver", "Int")
+		v.env.heapSet(st, "G!bufver", arr("Int", "Int"), sto(ver, ref, nv))
+	}
+	errOrNil := func(v *Verifier, st *State, retT types.Type) Value {
+		r := v.freshValue(st, "ret.io", retT)
+		v.assumeTypeFacts(st, r)
+		return r
+	}
+	nativeStubs["binary.Write"] = func(v *Verifier, st *State, in ssa.Instruction, c *ssa.CallCommon, args []Value, retT types.Type) Value {
+		bumpBuf(v, st, args[0])
+		return errOrNil(v, st, retT)
+	}
+	nativeMods["binary.Write"] = func(v *Verifier, c *ssa.CallCommon, maps map[string]string) bool {
+		maps["G!bufver"] = arr("Int", "Int")
+		return false
+	}
+	nativeStubs["binary.Read"] = func(v *Verifier, st *State, in ssa.Instruction, c *ssa.CallCommon, args []Value, retT types.Type) Value {
+		bumpBuf(v, st, args[0])
+		mi, ok := c.Args[2].(*ssa.MakeInterface)
+		if !ok {
+			v.unsupportedf("binary.Read into a value that is not a pointer literal at %s", v.posOf(in))
+		}
+		p := v.operand(st, mi.X)
+		pt, ok := mi.X.Type().Underlying().(*types.Pointer)
+		if !ok {
+			v.unsupportedf("binary.Read into a non-pointer at %s", v.posOf(in))
+		}
+		nv := v.freshValue(st, "read", pt.Elem())
+		v.assumeTypeFacts(st, nv)
+		v.storeAddr(st, p, nv, in)
+		return errOrNil(v, st, retT)
+	}
+	nativeMods["binary.Read"] = func(v *Verifier, c *ssa.CallCommon, maps map[string]string) bool {
+		maps["G!bufver"] = arr("Int", "Int")
+		if mi, ok := c.Args[2].(*ssa.MakeInterface); ok {
+			if pt, ok := mi.X.Type().Underlying().(*types.Pointer); ok {
+				v.storeTargets(mi.X, pt.Elem(), maps)
+				return false
+			}
+		}
+		return true
+	}
+	nativeStubs["bytes.(*Buffer).Read"] = func(v *Verifier, st *State, in ssa.Instruction, c *ssa.CallCommon, args []Value, retT types.Type) Value {
+		bumpBuf(v, st, args[0])
+		// the destination bytes become unknown
+		dst := args[1]
+		name := elemMapNameT(types.Typ[types.Uint8])
+		srt := arr("Int", arr("Int", "Int"))
+		cur := v.env.heapGet(st, name, srt)
+		fv := v.env.ctx.freshConst("readbytes", arr("Int", "Int"))
+		v.env.heapSet(st, name, srt, sto(cur, sliceBase(dst.T), fv))
+		r := v.freshValue(st, "ret.read", retT)
+		v.assumeTypeFacts(st, r)
+		if r.Tuple != nil {
+			st.assume("(and (<= 0 " + r.Tuple[0].T + ") (<= " + r.Tuple[0].T + " " + sliceLen(dst.T) + "))")
+		}
+		return r
+	}
+	nativeMods["bytes.(*Buffer).Read"] = func(v *Verifier, c *ssa.CallCommon, maps map[string]string) bool {
+		maps["G!bufver"] = arr("Int", "Int")
+		maps[elemMapNameT(types.Typ[types.Uint8])] = arr("Int", arr("Int", "Int"))
+		return false
+	}
 	nativeStubs["reflect.TypeOf"] = func(v *Verifier, st *State, in ssa.Instruction, c *ssa.CallCommon, args []Value, retT types.Type) Value {
 		// the reflect.Type of x is represented by x itself; reflect.TypeOf(nil) is the nil Type, so a
 		// following .Kind() is a method call on a nil interface (a panic site)
@@ -1192,7 +1264,12 @@ func init() {
 	nativeStubs["reflect.(Type).Kind"] = func(v *Verifier, st *State, in ssa.Instruction, c *ssa.CallCommon, args []Value, retT types.Type) Value {
 		x := args[0]
 		isT := func(t types.Type) string { return v.env.valIsType(x, t) }
-		k := ite(isT(types.Typ[types.Int64]), "6", ite(isT(types.Typ[types.String]), "24", ite(isT(types.Typ[types.Bool]), "1", ite(isT(types.Typ[types.Int]), "2", "99"))))
+		// exact for the four predeclared types; any other dynamic type (named types included, whose
+		// kind is that of their underlying type) has some kind in the range of reflect.Kind
+		v.env.ctx.declFun("reflect.kind", []string{"Val"}, "Int")
+		other := app("reflect.kind", x.T)
+		st.assume("(and (<= 0 " + other + ") (<= " + other + " 26))")
+		k := ite(isT(types.Typ[types.Int64]), "6", ite(isT(types.Typ[types.String]), "24", ite(isT(types.Typ[types.Bool]), "1", ite(isT(types.Typ[types.Int]), "2", other))))
 		return Value{T: k, Sort: "Int", GoT: retT}
 	}
 	nativeMods["reflect.(Type).Kind"] = pureMods
